@@ -125,7 +125,53 @@ RunRule(st, ram, def, g) ==       \* ram already contains the rule (set when the
   ELSE IF g.phase = "dfs" THEN RunRuleVisit(st, ram, def, g)
   ELSE [st |-> st, g |-> g]
 
+(***************************************************************************)
+(* get_webentity_pages_iter / get_webentity_crawled_pages_iter(weid, ps):   *)
+(* webentity_dfs_iter prefix by prefix; a yield point after every page met. *)
+(* The traversal reads a node when it pops it and pushes that node's        *)
+(* siblings and child only after it is resumed - from the copy read BEFORE  *)
+(* the yield (pend).                                                        *)
+(***************************************************************************)
+NewPagesQuery(ps, onlyCrawled) ==
+  [kind |-> "qpages", ps |-> ps, oc |-> onlyCrawled, pi |-> 0, start |-> 0, stack |-> <<>>,
+   pend |-> [has |-> FALSE], acc |-> <<>>, phase |-> "run", pages |-> 0, created |-> <<>>,
+   done |-> FALSE, exc |-> ""]
+
+QPush(stack, start, pend) ==
+  stack
+  \o (IF pend.b # start
+      THEN (IF pend.node.r # 0 THEN <<[b |-> pend.node.r, pre |-> pend.pre]>> ELSE <<>>)
+           \o (IF pend.node.l # 0 THEN <<[b |-> pend.node.l, pre |-> pend.pre]>> ELSE <<>>)
+      ELSE <<>>)
+  \o (IF pend.rel /\ pend.node.ch # 0 THEN <<[b |-> pend.node.ch, pre |-> pend.cur]>> ELSE <<>>)
+
+RECURSIVE QPagesLoop(_, _)
+QPagesLoop(st, g) ==
+  IF g.stack = <<>> THEN
+    IF g.pi >= Len(g.ps) THEN [st |-> st, g |-> [g EXCEPT !.done = TRUE]]
+    ELSE LET p == g.ps[g.pi + 1]
+             n == LruNode(st.trie, p)
+         IN IF n = 0 THEN [st |-> st, g |-> [g EXCEPT !.done = TRUE, !.exc = "TraphException"]]
+            ELSE QPagesLoop(st, [g EXCEPT !.pi = @ + 1, !.start = n,
+                                          !.stack = <<[b |-> n, pre |-> SubSeq(p, 1, Len(p) - 1)]>>])
+  ELSE LET top  == g.stack[Len(g.stack)]
+           rest == SubSeq(g.stack, 1, Len(g.stack) - 1)
+           node == st.trie[top.b]
+           rel  == top.b = g.start \/ node.we = 0
+           cur  == Append(top.pre, node.s)
+           pend == [has |-> TRUE, node |-> node, b |-> top.b, pre |-> top.pre, cur |-> cur, rel |-> rel]
+       IN IF rel /\ node.pg
+          THEN [st |-> st,
+                g |-> [g EXCEPT !.stack = rest, !.pend = pend,
+                                !.acc = IF g.oc /\ ~node.cr THEN @ ELSE Append(@, cur)]]
+          ELSE QPagesLoop(st, [g EXCEPT !.stack = QPush(rest, g.start, pend)])
+
+RunQPages(st, g) ==
+  QPagesLoop(st, IF g.pend.has THEN [g EXCEPT !.stack = QPush(@, g.start, g.pend), !.pend = [has |-> FALSE]] ELSE g)
+
 RunGen(st, ram, def, g) ==
-  IF g.kind = "crawl" THEN RunCrawl(st, ram, def, g) ELSE RunRule(st, ram, def, g)
+  IF g.kind = "crawl" THEN RunCrawl(st, ram, def, g)
+  ELSE IF g.kind = "qpages" THEN RunQPages(st, g)
+  ELSE RunRule(st, ram, def, g)
 
 =============================================================================
